@@ -1,0 +1,105 @@
+//! Accessors for the external verification harness (feature `verif-hooks`).
+//! Each function forwards to an existing `BigUint` method; there is no logic here.
+
+use super::{BigUint, FormatOptions};
+use crate::error::Interrupt;
+use crate::format::Format;
+use crate::num::Base;
+
+/// `(is_small, little-endian limbs)`; a small value has exactly one limb.
+pub(crate) type Raw = (bool, Vec<u64>);
+
+pub(crate) fn from_raw(r: &Raw) -> BigUint {
+	if r.0 {
+		BigUint::Small(r.1[0])
+	} else {
+		BigUint::Large(r.1.clone())
+	}
+}
+
+pub(crate) fn to_raw(b: &BigUint) -> Raw {
+	match b {
+		BigUint::Small(n) => (true, vec![*n]),
+		BigUint::Large(v) => (false, v.clone()),
+	}
+}
+
+fn e<T>(r: crate::result::FResult<T>) -> Result<T, String> {
+	r.map_err(|e| e.to_string())
+}
+
+pub(crate) fn op1<I: Interrupt>(op: &str, a: &Raw, int: &I) -> Result<Vec<Raw>, String> {
+	let x = from_raw(a);
+	Ok(match op {
+		"lshift" => {
+			let mut x = x;
+			e(x.lshift(int))?;
+			vec![to_raw(&x)]
+		}
+		"rshift" => {
+			let mut x = x;
+			e(x.rshift(int))?;
+			vec![to_raw(&x)]
+		}
+		"factorial" => vec![to_raw(&e(x.factorial(int))?)],
+		"is_zero" => vec![(true, vec![u64::from(x.is_zero())])],
+		"bits" => vec![(true, vec![x.bits()])],
+		"as_f64" => vec![(true, vec![x.as_f64().to_bits()])],
+		"log2" => vec![(true, vec![e(x.log2(int))?.to_bits()])],
+		"try_as_usize" => vec![(true, vec![e(x.try_as_usize(int))? as u64])],
+		"is_even" => vec![(true, vec![u64::from(e(x.is_even(int))?)])],
+		_ => return Err(format!("unknown op {op}")),
+	})
+}
+
+pub(crate) fn op2<I: Interrupt>(op: &str, a: &Raw, b: &Raw, int: &I) -> Result<Vec<Raw>, String> {
+	let x = from_raw(a);
+	let y = from_raw(b);
+	Ok(match op {
+		"add" => vec![to_raw(&x.add(&y))],
+		"sub" => vec![to_raw(&x.sub(&y))],
+		"mul" => vec![to_raw(&e(x.mul(&y, int))?)],
+		"divmod" => {
+			let (q, r) = e(x.divmod(&y, int))?;
+			vec![to_raw(&q), to_raw(&r)]
+		}
+		"cmp" => vec![(true, vec![x.cmp(&y) as i8 as i64 as u64])],
+		"gcd" => vec![to_raw(&e(BigUint::gcd(x, y, int))?)],
+		"pow" => vec![to_raw(&e(BigUint::pow(&x, &y, int))?)],
+		"root_n" => {
+			let r = e(x.root_n(&y, int))?;
+			vec![to_raw(&r.value), (true, vec![u64::from(r.exact)])]
+		}
+		"and" => vec![to_raw(&x.bitwise_and(&y))],
+		"or" => vec![to_raw(&x.bitwise_or(&y))],
+		"xor" => vec![to_raw(&x.bitwise_xor(&y))],
+		"lshift_n" => vec![to_raw(&e(x.lshift_n(&y, int))?)],
+		"rshift_n" => vec![to_raw(&e(x.rshift_n(&y, int))?)],
+		_ => return Err(format!("unknown op {op}")),
+	})
+}
+
+pub(crate) fn fibonacci<I: Interrupt>(n: usize, int: &I) -> Result<Raw, String> {
+	Ok(to_raw(&e(BigUint::fibonacci(n, int))?))
+}
+
+pub(crate) fn to_words<I: Interrupt>(a: &Raw, int: &I) -> Result<String, String> {
+	e(from_raw(a).to_words(int))
+}
+
+pub(crate) fn format<I: Interrupt>(
+	a: &Raw,
+	base: u8,
+	sf_limit: Option<usize>,
+	int: &I,
+) -> Result<(String, bool), String> {
+	let r = e(from_raw(a).format(
+		&FormatOptions {
+			base: e(Base::from_plain_base(base))?,
+			write_base_prefix: false,
+			sf_limit,
+		},
+		int,
+	))?;
+	Ok((r.value.to_string(), r.exact))
+}
